@@ -93,7 +93,7 @@ def main():
   seed = int(os.environ.get('VERIF_SEED', '0'))
   rng = random.Random(seed * 49979687 + 17)
   t0 = time.time()
-  n_models = 500 if tier == 'thorough' else 70
+  n_models = 2000 if tier == 'thorough' else 150
   viol = []
   dist = collections.Counter()
   nontrivial = set()
